@@ -387,10 +387,14 @@ class LinearOperator(EditableModule):
         LinearOperator
             The Hermite / transposed LinearOperator
         """
-        if self._is_hermitian:
+        if isinstance(self, MatrixLinearOperator):
+            # build the adjoint from the matrix even if it is Hermitian, so that
+            # the result is the adjoint as a function of the matrix elements
+            # (needed for higher order derivatives w.r.t. the matrix)
+            return MatrixLinearOperator(self.fullmatrix().transpose(-2, -1).conj(),
+                                        self._is_hermitian)
+        elif self._is_hermitian:
             return self
-        elif isinstance(self, MatrixLinearOperator):
-            return LinearOperator.m(self.fullmatrix().transpose(-2, -1).conj())
         return AdjointLinearOperator(self)
 
     ############# special functions ################
